@@ -25,7 +25,7 @@ func init() {
 		Assumptions: []string{"string == is exact comparison", "fmt.Sprintf with %s of a string inserts it verbatim"},
 		Tech:        "static analysis: guarded-by-condition on SSA, acceptance-condition enumeration for all implementations of the partition interface, constant-folded format strings",
 		NeedU1:      true,
-		Rules:       []func(*Ctx){ruleC06CheckedBeforeUse, ruleC06ExactMatch, ruleC06IDFormat, ruleC06EmptyRefused, ruleC06IDFlowsUnmodified, ruleC18KeyIDOperands},
+		Rules:       []func(*Ctx){ruleC06CheckedBeforeUse, ruleC06ExactMatch, ruleC06IDFormat, ruleC06EmptyRefused, ruleC06IDFlowsUnmodified, ruleC18KeyIDOperands, ruleC06KeyCacheIndexExact},
 	})
 }
 
@@ -665,5 +665,127 @@ func ruleC06IDFlowsUnmodified(c *Ctx) {
 			}
 		})
 		c.check(ok, ctor+"/id-field", u.pos(f.Pos()), "partition.id = the id parameter", "the partition object does not store the id it was created for unchanged")
+	}
+}
+
+// ruleC06KeyCacheIndexExact: the key cache finds keys by exactly the key id it is asked for. Every index into
+// keyCache.latest and every key handed to keyCache.keys.Get/Set/Delete is a cacheKey(id, created) call whose id operand is
+// an unmodified id (a string parameter, or the ID field of a KeyMeta), and cacheKey itself concatenates its id parameter,
+// unmodified, with the decimal created stamp. A normalised (case-folded, trimmed, truncated) index makes two partitions'
+// keys alias each other in a shared cache: one partition's data keys get wrapped under the other's intermediate key.
+func ruleC06KeyCacheIndexExact(c *Ctx) {
+	u := c.U1
+	c.rule("C06.key-cache-index-exact", "every index into keyCache.latest and every key given to keyCache.keys.Get/Set/Delete is cacheKey(<unmodified id>, <created>); cacheKey(id, created) = id + FormatInt(created, 10) with the id parameter itself", 5)
+	ck := u.Func(pkgApp, "cacheKey")
+	if ck == nil {
+		c.unresolved("cacheKey", "appencryption.cacheKey")
+		return
+	}
+	c.FuncsAnalysed[shortName(ck)] = true
+	// cacheKey shape
+	okShape := false
+	for _, r := range returnsOf(ck) {
+		if bo, ok := resolve(returnedValue(r, 0)).(*ssa.BinOp); ok && bo.Op == token.ADD {
+			if isParamNamed(bo.X, ck, 0) {
+				if cv, isC := resolve(bo.Y).(*ssa.Call); isC && (staticIs(cv, "strconv.FormatInt") || staticIs(cv, "strconv.Itoa")) && isParamNamed(cv.Call.Args[0], ck, 1) {
+					okShape = true
+				}
+			}
+		}
+		if f, args, ok := sprintfParts(returnedValue(r, 0)); ok && len(args) == 2 && (f == "%s%d" || f == "%s-%d" || f == "%s_%d") {
+			okShape = isParamNamed(unwrapIface(args[0]), ck, 0) && isParamNamed(unwrapIface(args[1]), ck, 1)
+		}
+	}
+	c.check(okShape, "cacheKey/shape", u.pos(ck.Pos()), "id (unmodified) followed by the decimal created stamp", "cacheKey no longer builds the index from its id parameter unmodified and the decimal created stamp")
+	rawID := func(v ssa.Value) bool {
+		v = resolve(v)
+		if p, ok := v.(*ssa.Parameter); ok {
+			return p.Type().String() == "string"
+		}
+		if _, fld, ok := fieldAccess(v); ok && fld == "ID" {
+			return true
+		}
+		if _, isFV := v.(*ssa.FreeVar); isFV {
+			return true
+		}
+		ap := accessPath(v)
+		return strings.HasSuffix(ap, ".ID") || (strings.HasPrefix(ap, "P:") && !strings.Contains(ap, "."))
+	}
+	isCacheKeyCall := func(v ssa.Value) (bool, string) {
+		cv, ok := resolve(v).(*ssa.Call)
+		if !ok || staticCallee(cv) != ck {
+			return false, "the index is not a cacheKey(...) call: " + describeOperand(v)
+		}
+		if !rawID(cv.Call.Args[0]) {
+			return false, "cacheKey is given a transformed id: " + describeOperand(cv.Call.Args[0])
+		}
+		return true, ""
+	}
+	n := 0
+	for _, f := range u.RepoFuncs {
+		if f.Pkg == nil || f.Pkg.Pkg.Path() != pkgApp || f.Blocks == nil {
+			continue
+		}
+		r := rootFunc(f)
+		if r.Signature.Recv() == nil || !typeIsNamed(r.Signature.Recv().Type(), pkgApp, "keyCache") {
+			continue
+		}
+		allInstrs(f, func(i ssa.Instruction) {
+			var idx ssa.Value
+			what := ""
+			switch x := i.(type) {
+			case *ssa.Lookup:
+				if _, fld, ok := fieldAccess(x.X); ok && fld == "latest" {
+					idx, what = x.Index, "latest[…]"
+				}
+			case *ssa.MapUpdate:
+				if _, fld, ok := fieldAccess(x.Map); ok && fld == "latest" {
+					idx, what = x.Key, "latest[…]="
+				}
+			case *ssa.Call:
+				if x.Call.IsInvoke() {
+					if _, fld, ok := fieldAccess(x.Call.Value); ok && fld == "keys" {
+						switch x.Call.Method.Name() {
+						case "Get", "Set", "Delete", "GetOrPanic":
+							idx, what = x.Call.Args[0], "keys."+x.Call.Method.Name()
+						}
+					}
+				}
+			}
+			if idx == nil {
+				return
+			}
+			n++
+			c.FuncsAnalysed[shortName(f)] = true
+			// the index may be a local that is assigned cacheKey(...) on every way in (phi)
+			vals := []ssa.Value{idx}
+			if phi, isPhi := resolve(idx).(*ssa.Phi); isPhi {
+				vals = phi.Edges
+			} else if p, isP := resolve(idx).(*ssa.Parameter); isP && p.Type().String() == "string" {
+				// helper taking the ready-made index: check its call sites instead
+				vals = nil
+				for _, g := range u.RepoFuncs {
+					allInstrs(g, func(j ssa.Instruction) {
+						if staticCallee(j) == f {
+							for k, q := range f.Params {
+								if q == p && k < len(callOf(j).Args) {
+									vals = append(vals, callOf(j).Args[k])
+								}
+							}
+						}
+					})
+				}
+			}
+			ok, why := len(vals) > 0, "no value reaches the index"
+			for _, v := range vals {
+				if good, w := isCacheKeyCall(v); !good {
+					ok, why = false, w
+				}
+			}
+			c.check(ok, trimPkgDirs(shortName(f))+"/"+what, u.ipos(i), "indexed by cacheKey(<unmodified id>, created)", why+" — ids that differ only in what the transformation discards share cache entries (one partition's key is handed out for another)")
+		})
+	}
+	if n < 5 {
+		c.bad("keyCache/index-sites", "", fmt.Sprintf("expected at least 5 index sites in keyCache (latest lookups/updates, keys.Get/Set), found %d", n))
 	}
 }
